@@ -479,13 +479,466 @@ def correspondence(rng, tier):
     return out
 
 
+# ------------------------------------------------------------------ probes
+# The property evaluated directly on the implementation (no model): a problem
+# is a plain-data description; probe_eval builds the odl objects, runs the
+# solvers and compares.  The replay snippet calls probe_eval on the same data.
+def _pf(spec, space):
+    """functional from a nested-list spec"""
+    import odl
+    S = odl.solvers
+    k = spec[0]
+    if k == 'zero':
+        return S.ZeroFunctional(space)
+    if k == 'l1':
+        return S.L1Norm(space)
+    if k == 'l2':
+        return S.L2Norm(space)
+    if k == 'l2sq':
+        return S.L2NormSquared(space)
+    if k == 'box':
+        return S.IndicatorBox(space, spec[1], spec[2])
+    if k == 'nonneg':
+        return S.IndicatorNonnegativity(space)
+    if k == 'kl':
+        return S.KullbackLeibler(space, prior=_el(space, spec[1]) if spec[1] is not None else None)
+    if k == 'klcc':
+        return S.KullbackLeibler(space, prior=_el(space, spec[1]) if spec[1] is not None else None).convex_conj
+    if k == 'huber':
+        return S.Huber(space, spec[1])
+    if k == 'ball':
+        return S.IndicatorLpUnitBall(space, spec[1])
+    if k == 'groupl1':
+        return S.GroupL1Norm(space)
+    if k == 'gl1ball':
+        return S.IndicatorGroupL1UnitBall(space)
+    if k == 'quadform':
+        return S.QuadraticForm(vector=_el(space, spec[1]), constant=spec[2])
+    if k == 'scaled':
+        return spec[1] * _pf(spec[2], space)
+    if k == 'argscaled':
+        return _pf(spec[2], space) * spec[1]
+    if k == 'trans':
+        return _pf(spec[2], space).translated(_el(space, spec[1]))
+    if k == 'l2sqdata':      # ||A x - b||^2 , smooth term with a gradient
+        A = odl.MatrixOperator(np.array(spec[1], dtype=float), domain=space, range=odl.rn(len(spec[1])))
+        return S.L2NormSquared(A.range).translated(spec[2]) * A
+    raise ValueError(spec)
+
+
+def _pop(d):
+    """operator of a problem description: ('rn', M) or ('grad', n, method) or ('id', n)"""
+    import odl
+    k = d[0]
+    if k == 'rn':
+        M = np.array(d[1], dtype=float)
+        return odl.MatrixOperator(M, domain=odl.rn(M.shape[1]), range=odl.rn(M.shape[0]))
+    if k == 'grad':
+        X = odl.uniform_discr(0, d[1], d[1])
+        return odl.Gradient(X, method=d[2], pad_mode='symmetric' if d[2] != 'central' else 'constant')
+    if k == 'id':
+        return odl.IdentityOperator(odl.rn(d[1]))
+    if k == 'scale':
+        return odl.ScalingOperator(odl.rn(d[1]), d[2])
+    raise ValueError(d)
+
+
+def _el(space, v):
+    import odl
+    if isinstance(space, odl.ProductSpace):
+        k = len(v) // len(space)
+        return space.element([_el(space[i], v[i * k:(i + 1) * k]) for i in range(len(space))])
+    return space.element(np.array(v, dtype=float).reshape(space.shape))
+
+
+def _flat(x):
+    import odl
+    if isinstance(x.space, odl.ProductSpace):
+        return np.concatenate([_flat(xi) for xi in x])
+    return np.asarray(x, dtype=float).ravel().copy()
+
+
+def _close(a, b):
+    a, b = np.asarray(a, dtype=float), np.asarray(b, dtype=float)
+    if a.shape != b.shape:
+        return False
+    if a.size == 0:
+        return True
+    scale = 1.0 + (np.nanmax(np.abs(b)) if np.all(np.isfinite(b)) else 0.0)
+    return bool(np.allclose(a, b, rtol=0, atol=1e-10 * scale, equal_nan=True))
+
+
+def probe_eval(d):
+    """Returns (ok, observed, expected).  d['kind'] selects the clause of the property."""
+    C.setup_impl_path()
+    import odl
+    from odl.solvers.nonsmooth.admm import admm_linearized, admm_linearized_simple
+    from odl.solvers.nonsmooth.alternating_dual_updates import adupdates, adupdates_simple
+    from odl.solvers.nonsmooth.difference_convex import doubleprox_dc, doubleprox_dc_simple
+    from odl.solvers.nonsmooth.primal_dual_hybrid_gradient import pdhg
+    from odl.solvers.nonsmooth.proximal_gradient_solvers import proximal_gradient
+    from odl.solvers.nonsmooth.douglas_rachford import douglas_rachford_pd
+    from odl.solvers.iterative.iterative import landweber, kaczmarz
+    from odl.solvers.iterative.statistical import mlem, osmlem
+    from odl.solvers.smooth.gradient import steepest_descent
+    kind, N = d['kind'], d['niter']
+
+    def rec():
+        tr = []
+        return tr, (lambda x: tr.append(_flat(x)))
+
+    if kind == 'admm-vs-simple':
+        L = _pop(d['op'])
+        f, g = _pf(d['f'], L.domain), _pf(d['g'], L.range)
+        t1, c1 = rec()
+        admm_linearized(_el(L.domain, d['x0']), f, g, L, d['tau'], d['sigma'], N, callback=c1)
+        t2, c2 = rec()
+        admm_linearized_simple(_el(L.domain, d['x0']), f, g, L, d['tau'], d['sigma'], N, callback=c2)
+        return (len(t1) == N and len(t2) == N and _close(t1, t2)), np.array(t1).tolist(), np.array(t2).tolist()
+    if kind == 'adupdates-vs-simple':
+        Ls = [_pop(o) for o in d['ops']]
+        gs = [_pf(s, Li.range) for s, Li in zip(d['gs'], Ls)]
+        dom = Ls[0].domain
+        inner = d['inner']
+        t1, c1 = rec()
+        adupdates(_el(dom, d['x0']), gs, Ls, d['stepsize'], inner, N, callback=c1)
+        t3, c3 = rec()
+        adupdates(_el(dom, d['x0']), gs, Ls, d['stepsize'], inner, N, callback=c3, callback_loop='inner')
+        t2 = []
+        for j in range(1, N + 1):
+            x = _el(dom, d['x0'])
+            adupdates_simple(x, gs, Ls, d['stepsize'], inner, j)
+            t2.append(_flat(x))
+        ok = len(t1) == N and _close(t1, t2) and len(t3) == N * len(Ls) and _close(t3[len(Ls) - 1::len(Ls)], t2)
+        return ok, np.array(t1).tolist(), np.array(t2).tolist()
+    if kind == 'doubleprox_dc-vs-simple':
+        K = _pop(d['op'])
+        f, g, phi = _pf(d['f'], K.domain), _pf(d['g'], K.range), _pf(d['phi'], K.domain)
+        t1, c1 = rec()
+        y = _el(K.range, d['y0'])
+        doubleprox_dc(_el(K.domain, d['x0']), y, f, phi, g, K, N, d['gamma'], d['mu'], callback=c1)
+        t2, y2 = [], None
+        for j in range(1, N + 1):
+            x, y2 = _el(K.domain, d['x0']), _el(K.range, d['y0'])
+            doubleprox_dc_simple(x, y2, f, phi, g, K, j, d['gamma'], d['mu'])
+            t2.append(_flat(x))
+        ok = len(t1) == N and _close(t1, t2) and (N == 0 or _close(_flat(y), _flat(y2)))
+        return ok, np.array(t1).tolist(), np.array(t2).tolist()
+
+    if kind == 'resume-proximal_gradient-callable-lam':
+        # lam is a callable; d['shift'] says whether the caller shifts it by the iterations already done
+        sp = odl.rn(len(d['x0']))
+        f, g = _pf(d['f'], sp), _pf(d['g'], sp)
+        vals = d['lam']
+
+        def lam(k, off=0):
+            return vals[min(k + off, len(vals) - 1)]
+        x = _el(sp, d['x0'])
+        proximal_gradient(x, f, g, d['gamma'], N, lam=lam)
+        want = _flat(x)
+        ok, got = True, want
+        for n1 in range(N + 1):
+            x = _el(sp, d['x0'])
+            proximal_gradient(x, f, g, d['gamma'], n1, lam=lam)
+            proximal_gradient(x, f, g, d['gamma'], N - n1, lam=(lambda k, n1=n1: lam(k, n1)) if d['shift'] else lam)
+            got = _flat(x)
+            ok = ok and _close(got, want)
+            if not ok:
+                break
+        return ok, got.tolist(), want.tolist()
+
+    # ---- resumption: n1 iterations then N - n1, for every n1, against one run of N; callbacks counted
+    def run_factory():
+        if kind == 'resume-landweber':
+            A = _pop(d['op'])
+            rhs = _el(A.range, d['rhs'])
+            pr = _projection(d.get('proj'))
+            return (lambda st, it, cb=None: landweber(A, st[0], rhs, it, omega=d['omega'], projection=pr, callback=cb)), \
+                (lambda: [_el(A.domain, d['x0'])]), 1
+        if kind == 'resume-kaczmarz':
+            ops = [_pop(o) for o in d['ops']]
+            rhs = [_el(o.range, r) for o, r in zip(ops, d['rhs'])]
+            pr = _projection(d.get('proj'))
+            return (lambda st, it, cb=None: kaczmarz(ops, st[0], rhs, it, omega=d['omega'], projection=pr, callback=cb)), \
+                (lambda: [_el(ops[0].domain, d['x0'])]), 1
+        if kind == 'resume-proximal_gradient':
+            sp = odl.rn(len(d['x0']))
+            f, g = _pf(d['f'], sp), _pf(d['g'], sp)
+            return (lambda st, it, cb=None: proximal_gradient(st[0], f, g, d['gamma'], it, callback=cb, lam=d['lam'])), \
+                (lambda: [_el(sp, d['x0'])]), 1
+        if kind == 'resume-mlem':
+            ops = [_pop(o) for o in d['ops']]
+            data = [_el(o.range, r) for o, r in zip(ops, d['data'])]
+            if len(ops) == 1:
+                return (lambda st, it, cb=None: mlem(ops[0], st[0], data[0], it, callback=cb)), \
+                    (lambda: [_el(ops[0].domain, d['x0'])]), 1
+            return (lambda st, it, cb=None: osmlem(ops, st[0], data, it, callback=cb)), \
+                (lambda: [_el(ops[0].domain, d['x0'])]), len(ops)
+        if kind == 'resume-steepest_descent':
+            sp = odl.rn(len(d['x0']))
+            f = _pf(d['f'], sp)
+            pr = _projection(d.get('proj'))
+            return (lambda st, it, cb=None: steepest_descent(f, st[0], line_search=d['step'], maxiter=it, tol=d['tol'],
+                                                            projection=pr, callback=cb)), \
+                (lambda: [_el(sp, d['x0'])]), None
+        if kind == 'resume-pdhg':
+            L = _pop(d['op'])
+            f, g = _pf(d['f'], L.domain), _pf(d['g'], L.range)
+
+            def init():
+                x = _el(L.domain, d['x0'])
+                return [x, x.copy(), L.range.zero()]
+            return (lambda st, it, cb=None: pdhg(st[0], f, g, L, it, d['tau'], d['sigma'], theta=d['theta'],
+                                                x_relax=st[1], y=st[2], callback=cb)), init, 1
+        if kind == 'resume-doubleprox_dc':
+            K = _pop(d['op'])
+            f, g, phi = _pf(d['f'], K.domain), _pf(d['g'], K.range), _pf(d['phi'], K.domain)
+            return (lambda st, it, cb=None: doubleprox_dc(st[0], st[1], f, phi, g, K, it, d['gamma'], d['mu'],
+                                                         callback=cb)), \
+                (lambda: [_el(K.domain, d['x0']), _el(K.range, d['y0'])]), 1
+        raise ValueError(kind)
+
+    run, init, cb_per_iter = run_factory()
+    st = init()
+    tr, cb = rec()
+    run(st, N, cb)
+    want = [_flat(v) for v in st]
+    ok = True
+    if cb_per_iter is not None:
+        ok = ok and len(tr) == N * cb_per_iter
+    else:
+        ok = ok and len(tr) <= N
+    if tr:
+        ok = ok and _close(tr[-1], want[0])          # last callback saw the final iterate
+    got = None
+    for n1 in range(N + 1):
+        st = init()
+        tr1, cb1 = rec()
+        run(st, n1, cb1)
+        run(st, N - n1, cb1)
+        got = [_flat(v) for v in st]
+        ok = ok and all(_close(a, b) for a, b in zip(got, want)) and _close(tr1, tr)
+        if not ok:
+            break
+    return ok, [g.tolist() for g in got], [w.tolist() for w in want]
+
+
+def _projection(p):
+    if p is None:
+        return None
+    if p[0] == 'nonneg':
+        return lambda x: x.ufuncs.maximum(0, out=x)
+    lo, hi = p[1], p[2]
+
+    def pr(x):
+        x[:] = np.clip(np.asarray(x), lo, hi)
+    return pr
+
+
+def _replay(d):
+    return ("import sys\nsys.path.insert(0, %r)\nfrom harness.c11 import probe_eval\n"
+            "ok, observed, expected = probe_eval(%r)\n" % (C.VERIF, d))
+
+
+def _spec_name(s):
+    if s[0] in ('scaled', 'argscaled', 'trans'):
+        return s[0] + '-' + _spec_name(s[2])
+    return s[0]
+
+
+def _rand_spec(rng, n, role, pspace=False):
+    """role: 'prox' (any functional with a proximal), 'smooth' (has a gradient)"""
+    if role == 'smooth':
+        k = rng.choice(['l2sq', 'l2sqdata', 'quadform', 'zero', 'trans-l2sq', 'huber'])
+        if k == 'l2sqdata':
+            mm = rng.randint(1, 3)
+            return ['l2sqdata', _mat(rng, mm, n), _vec(rng, mm)]
+        if k == 'quadform':
+            return ['quadform', _vec(rng, n), float(rng.randint(-2, 2))]
+        if k == 'trans-l2sq':
+            return ['trans', _vec(rng, n), ['scaled', rng.choice([0.5, 2.0]), ['l2sq']]]
+        if k == 'huber':
+            return ['huber', rng.choice([0.5, 1.0])]
+        return [k]
+    kinds = ['l1', 'l1', 'l2', 'l2sq', 'box', 'nonneg', 'kl', 'klcc', 'ball2', 'ballinf', 'zero', 'scaled', 'trans',
+             'argscaled']
+    if pspace:
+        kinds += ['groupl1', 'groupl1', 'gl1ball']
+    else:
+        kinds += ['huber']
+    k = rng.choice(kinds)
+    if k == 'box':
+        lo = float(rng.randint(-2, 0))
+        return ['box', lo, lo + rng.choice([0.5, 1.0, 3.0])]
+    if k in ('kl', 'klcc'):
+        return [k, [rng.choice([0.5, 1.0, 2.0, 3.0]) for _ in range(n)] if rng.random() < 0.7 else None]
+    if k == 'huber':
+        return ['huber', rng.choice([0.25, 1.0])]
+    if k == 'ball2':
+        return ['ball', 2]
+    if k == 'ballinf':
+        return ['ball', float('inf')]
+    if k == 'scaled':
+        return ['scaled', rng.choice([0.5, 2.0, 3.0]), _rand_spec(rng, n, role, pspace)]
+    if k == 'argscaled':
+        return ['argscaled', rng.choice([0.5, 2.0, 0.25]), _rand_spec(rng, n, role, pspace)]
+    if k == 'trans':
+        return ['trans', _vec(rng, n), _rand_spec(rng, n, role, pspace)]
+    return [k]
+
+
+def _rand_op(rng, tier, allow_grad=True):
+    """returns (op description, domain size, range size (flattened), range is a product space)"""
+    r = rng.random()
+    if allow_grad and r < 0.3:
+        n = rng.randint(2, 5)
+        return ['grad', n, rng.choice(['forward', 'backward', 'central'])], n, n, True
+    n, m = rng.randint(1, 4), rng.randint(1, 4)
+    if r < 0.4:
+        return ['id', n], n, n, False
+    return ['rn', _mat(rng, m, n)], n, m, False
+
+
 def probes(rng, tier):
-    return []
+    out = []
+    reps = 1 if tier == 'quick' else 5
+
+    def add(d, key, what):
+        try:
+            ok, obs, exp = probe_eval(d)
+            det = None if ok else {'observed': obs, 'expected': exp}
+        except Exception as e:       # a solver that raises on a valid problem also fails the property
+            ok, det = False, {'raised': '%s: %s' % (type(e).__name__, str(e)[:300])}
+        out.append(C.Probe(bool(ok), key, what, _replay(d), det))
+
+    for _ in range(25 * reps):
+        op, n, m, ps = _rand_op(rng, tier)
+        f, g = _rand_spec(rng, n, 'prox'), _rand_spec(rng, m, 'prox', ps)
+        d = {'kind': 'admm-vs-simple', 'op': op, 'f': f, 'g': g, 'tau': _dy(rng), 'sigma': _dy(rng, (0.5, 1.0, 2.0, 4.0)),
+             'x0': _vec(rng, n), 'niter': rng.randint(1, 6 if tier == 'quick' else 15)}
+        add(d, 'admm-vs-simple-f=%s-g=%s' % (_spec_name(f), _spec_name(g)),
+            'admm_linearized and admm_linearized_simple give the same callback-observed iterates (op %s)' % op[0])
+    for _ in range(20 * reps):
+        nops = rng.choice([1, 2, 3])
+        n = rng.randint(1, 4)
+        ops, gs = [], []
+        for j in range(nops):
+            if rng.random() < 0.25:
+                ops.append(['id', n]); mm, ps = n, False
+            elif rng.random() < 0.2 and n >= 2:
+                ops.append(['grad', n, 'forward']); mm, ps = n, True
+            else:
+                mm = rng.randint(1, 3) if not (j and rng.random() < 0.5 and ops[0][0] == 'rn') else len(ops[0][1])
+                ops.append(['rn', _mat(rng, mm, n)]); ps = False
+            gs.append(_rand_spec(rng, mm, 'prox', ps))
+        if any(o[0] == 'grad' for o in ops):      # all domains must be equal: use the discretized space throughout
+            ops = [o if o[0] == 'grad' else ['grad', n, 'backward'] for o in ops]
+            gs = [_rand_spec(rng, n, 'prox', True) for _ in ops]
+        d = {'kind': 'adupdates-vs-simple', 'ops': ops, 'gs': gs, 'inner': [_dy(rng) for _ in ops],
+             'stepsize': _dy(rng, (0.5, 1.0, 2.0)), 'x0': _vec(rng, n), 'niter': rng.randint(1, 5 if tier == 'quick' else 12)}
+        add(d, 'adupdates-vs-simple-g=%s' % '+'.join(_spec_name(s) for s in gs),
+            'adupdates (outer and inner callbacks) and adupdates_simple give the same iterates')
+    for _ in range(20 * reps):
+        op, n, m, ps = _rand_op(rng, tier)
+        f, g, phi = _rand_spec(rng, n, 'prox'), _rand_spec(rng, m, 'prox', ps), _rand_spec(rng, n, 'smooth')
+        d = {'kind': 'doubleprox_dc-vs-simple', 'op': op, 'f': f, 'g': g, 'phi': phi, 'gamma': _dy(rng), 'mu': _dy(rng),
+             'x0': _vec(rng, n), 'y0': _vec(rng, m * (1 if not ps else 1)), 'niter': rng.randint(1, 6 if tier == 'quick' else 15)}
+        add(d, 'doubleprox_dc-vs-simple-f=%s-g=%s-phi=%s' % (_spec_name(f), _spec_name(g), _spec_name(phi)),
+            'doubleprox_dc and doubleprox_dc_simple give the same iterates')
+    # ---- resumption
+    for _ in range(8 * reps):
+        n, m = rng.randint(1, 4), rng.randint(1, 4)
+        d = {'kind': 'resume-landweber', 'op': ['rn', _mat(rng, m, n)], 'rhs': _vec(rng, m), 'omega': _dy(rng, (0.0625, 0.125)),
+             'proj': rng.choice([None, ['nonneg'], ['box', -1.0, 2.0]]), 'x0': _vec(rng, n), 'niter': rng.randint(0, 7)}
+        add(d, 'resume-landweber-proj=%s' % (d['proj'][0] if d['proj'] else 'none'),
+            'landweber: n then m iterations = n+m iterations for every splitting; one callback per iteration')
+    for _ in range(8 * reps):
+        n, k = rng.randint(1, 4), rng.randint(1, 3)
+        ms = [rng.randint(1, 3) for _ in range(k)]
+        d = {'kind': 'resume-kaczmarz', 'ops': [['rn', _mat(rng, m, n)] for m in ms], 'rhs': [_vec(rng, m) for m in ms],
+             'omega': [_dy(rng, (0.0625, 0.125, 0.25)) for _ in ms],
+             'proj': rng.choice([None, ['nonneg'], ['box', -1.0, 2.0]]), 'x0': _vec(rng, n), 'niter': rng.randint(0, 6)}
+        add(d, 'resume-kaczmarz-fixed-order-proj=%s' % (d['proj'][0] if d['proj'] else 'none'),
+            'kaczmarz (fixed order): exact resumption for every splitting; one outer callback per iteration')
+    for _ in range(10 * reps):
+        n = rng.randint(1, 4)
+        f, g = _rand_spec(rng, n, 'prox'), _rand_spec(rng, n, 'smooth')
+        d = {'kind': 'resume-proximal_gradient', 'f': f, 'g': g, 'gamma': _dy(rng), 'lam': rng.choice([1.0, 0.5, 1.5]),
+             'x0': _vec(rng, n), 'niter': rng.randint(0, 7)}
+        add(d, 'resume-proximal_gradient-const-lam-f=%s' % _spec_name(f),
+            'proximal_gradient with a float lam: exact resumption for every splitting; one callback per iteration')
+    for j in range(4 * reps):
+        n = rng.randint(1, 3)
+        shift = bool(j % 2)
+        d = {'kind': 'resume-proximal_gradient-callable-lam', 'f': ['l1'], 'g': ['l2sq'], 'gamma': 0.25,
+             'lam': [1.0, 0.5, 0.25, 1.5][:rng.randint(2, 4)], 'shift': shift, 'x0': [float(rng.randint(2, 5)) for _ in range(n)],
+             'niter': rng.randint(2, 6)}
+        add(d, 'resume-proximal_gradient-callable-lam-' + ('shifted-by-caller' if shift else 'counter-restarts'),
+            'proximal_gradient with a callable lam: n then m iterations = n+m iterations'
+            + (' when the caller shifts lam by n' if shift else ' when the same lam is passed to both calls'))
+    for _ in range(8 * reps):
+        n, k = rng.randint(1, 4), rng.choice([1, 1, 2, 3])
+        ms = [rng.randint(1, 3) for _ in range(k)]
+        d = {'kind': 'resume-mlem', 'ops': [['rn', _mat(rng, m, n, 0, 3)] for m in ms],
+             'data': [[float(rng.randint(0, 5)) for _ in range(m)] for m in ms],
+             'x0': [rng.choice([0.5, 1.0, 2.0]) for _ in range(n)], 'niter': rng.randint(0, 6)}
+        add(d, 'resume-%s' % ('mlem' if k == 1 else 'osmlem'),
+            'mlem/osmlem: exact resumption for every splitting; one callback per (sub-)iteration')
+    for _ in range(8 * reps):
+        n = rng.randint(1, 4)
+        f = _rand_spec(rng, n, 'smooth')
+        d = {'kind': 'resume-steepest_descent', 'f': f, 'step': _dy(rng, (0.0625, 0.125, 0.25, 0.5)),
+             'tol': rng.choice([1e-16, 0.001, 0.3]), 'proj': rng.choice([None, ['nonneg'], ['box', -1.0, 2.0]]),
+             'x0': _vec(rng, n), 'niter': rng.randint(0, 7)}
+        add(d, 'resume-steepest_descent-const-step-f=%s' % _spec_name(f),
+            'steepest_descent with a constant step: exact resumption for every splitting, callbacks <= maxiter')
+    for _ in range(12 * reps):
+        op, n, m, ps = _rand_op(rng, tier)
+        f, g = _rand_spec(rng, n, 'prox'), _rand_spec(rng, m, 'prox', ps)
+        d = {'kind': 'resume-pdhg', 'op': op, 'f': f, 'g': g, 'tau': _dy(rng), 'sigma': _dy(rng),
+             'theta': rng.choice([1, 0.5, 0]), 'x0': _vec(rng, n), 'niter': rng.randint(0, 7)}
+        add(d, 'resume-pdhg-state-passed-back-f=%s-g=%s' % (_spec_name(f), _spec_name(g)),
+            'pdhg with x_relax and y passed back: exact resumption of (x, x_relax, y) for every splitting')
+    for _ in range(8 * reps):
+        op, n, m, ps = _rand_op(rng, tier)
+        f, g, phi = _rand_spec(rng, n, 'prox'), _rand_spec(rng, m, 'prox', ps), _rand_spec(rng, n, 'smooth')
+        d = {'kind': 'resume-doubleprox_dc', 'op': op, 'f': f, 'g': g, 'phi': phi, 'gamma': _dy(rng), 'mu': _dy(rng),
+             'x0': _vec(rng, n), 'y0': _vec(rng, m), 'niter': rng.randint(0, 6)}
+        add(d, 'resume-doubleprox_dc-f=%s-g=%s' % (_spec_name(f), _spec_name(g)),
+            'doubleprox_dc: exact resumption of (x, y) for every splitting')
+    return out
 
 
-RULE = ''
-ASSUMPTIONS = []
-TRUSTED = []
-LEVEL_TEXT = ''
-LEVEL_NOTE = ''
-TECHNIQUE = ''
+RULE = ('per solver (admm_linearized[_simple], adupdates[_simple], doubleprox_dc[_simple], pdhg, landweber, kaczmarz, '
+        'proximal_gradient, mlem/osmlem, steepest_descent): random integer matrices of sizes 1..3 (quick) / 1..4 '
+        '(thorough) as MatrixOperator on rn, functionals drawn from {Zero, c*L1, c*L2^2, IndicatorBox, '
+        'IndicatorNonnegativity, translated(...), ||Mx-b||^2}, dyadic step sizes, half-integer start points, '
+        'niter in {0, 1, 2} and random up to 8 / 20; per case the callback-recorded iterates of the optimised and of '
+        'the reference implementation and the finals of ALL splittings n+m = niter are compared with the model run '
+        'at Q inside Coq (tolerance 1e-9 relative to the iterate size); a case is non-trivial when niter > 0; '
+        'distinct by (solver, sizes, functionals, steps, options, niter, start point).  A separate case set checks '
+        'the prox / conjugate-prox / gradient formulas of the functional family against the library.')
+ASSUMPTIONS = ['exact arithmetic: the model iterates are the unrounded ones; implementation compared with tolerance '
+               '1e-9*(1+max|x|) ("up to rounding" in the property text)',
+               'each op(x, out=y), prox(x, out=y), y.lincomb(...), y += z is modelled by its pure value: the '
+               'out-aliasing contract (prox(x, out=x)) is C10\'s subject, the call protocol C03\'s, lincomb C01\'s',
+               'operators/proximals/gradients are deterministic functions of their argument (no hidden state)',
+               'random-order variants (kaczmarz/adupdates random=True) and accelerated pdhg (gamma_primal/gamma_dual) '
+               'are outside the resumption claim and not modelled']
+TRUSTED = ['C11/Model.v: hand transcription of the loop bodies, one let per source statement (tied to the source by '
+           'the correspondence on every run)',
+           'C11/Corr.v functional family (prox / conjugate prox / gradient formulas), itself checked against the '
+           'library by the fk case set']
+LEVEL_TEXT = ('Proof: for loop-body models of admm_linearized, adupdates, doubleprox_dc and their _simple references, '
+              'with operators, proximals and gradients as arbitrary functions, Coq proves for EVERY iteration count, '
+              'start point, number of operators and temporary-sharing pattern that the callback-observed iterate '
+              'sequences coincide (loop invariant tmp_ran = L x for ADMM); that n then m iterations equal n+m '
+              'iterations for landweber, kaczmarz (fixed order), mlem/osmlem, steepest descent with constant step '
+              '(including its early return), doubleprox_dc, proximal_gradient with constant or caller-shifted lam, '
+              'and pdhg on the state (x, x_relax, y); that the callback trace has one entry per (sub-)iteration and '
+              'its k-th entry is the k-th iterate.  The literal resumption statement is refuted for '
+              'proximal_gradient with a callable lam (recorded finding).  The models are tied to the code by an '
+              'in-Coq correspondence on iterates and on all splittings.')
+LEVEL_NOTE = ('Trusted: hand-written loop-body models (validated by the correspondence), value-level semantics of '
+              'in-place calls (C01/C03/C10), exact arithmetic.  Axioms: classical reals + funext as printed.')
+TECHNIQUE = 'Coq proof by induction on niter with loop invariants (simulation) + in-Coq differential correspondence on iterates'
